@@ -1,6 +1,7 @@
 package verify
 
 import (
+	"github.com/google/go-tdx-guest/pcs"
 	"crypto/x509"
 	"time"
 
@@ -26,7 +27,11 @@ func honestIssuerChain(w *collateralWorld, ic *issuerChain, t time.Time) bool {
 		inWindow(s, t), inWindow(r, t), inWindow(conf, t), vp.UFBool("PathOther", certID(s), uint64(0), certID(conf)))
 }
 
-func h11(level int, authLen int, trailingNul, extra bool) {
+func h11(level int, authLen int, trailingNul, extra bool) { h11u(level, authLen, trailingNul, extra, false) }
+
+// used: the options value carries arbitrary private left-overs of earlier verifications (another
+// platform's chain, collateral and PCK extensions); an honest quote is accepted all the same.
+func h11u(level int, authLen int, trailingNul, extra, used bool) {
 	nDist := 0
 	if level == 2 {
 		nDist = 2
@@ -92,7 +97,14 @@ func h11(level int, authLen int, trailingNul, extra bool) {
 		honest = vp.And(honest, some)
 	}
 	vp.Assume(honest)
-	err := TdxQuote(quote, &Options{GetCollateral: level >= 1, CheckRevocations: level == 2, Getter: w.getter, Now: now})
+	opts := &Options{GetCollateral: level >= 1, CheckRevocations: level == 2, Getter: w.getter, Now: now}
+	if used {
+		other := mkCert("stale")
+		opts.chain = &PCKCertificateChain{PCKCertificate: other, RootCertificate: other, IntermediateCertificate: other}
+		opts.collateral = &Collateral{TcbInfoBody: []byte{9}, EnclaveIdentityBody: []byte{9}}
+		opts.pckCertExtensions = &pcs.PckExtensions{FMSPC: "000000000000", PCEID: "0000"}
+	}
+	err := TdxQuote(quote, opts)
 	vp.Reach("honest-world-exists", true)
 	vp.Assert("honest-in-date-quote-is-accepted", err == nil)
 }
@@ -103,6 +115,8 @@ func pemChainOf(w *pki, tail []byte) []byte {
 
 func H11a_base_auth32()          { h11(0, 32, false, false) }
 func H11b_base_auth0_nul_extra() { h11(0, 0, true, true) }
+func H11g_base_used_options()    { h11u(0, 32, false, false, true) }
+func H11h_collateral_used_options() { h11u(1, 32, false, false, true) }
 func H11c_collateral_auth64()    { h11(1, 64, false, true) }
 func H11d_revocation_auth32_nul() { h11(2, 32, true, false) }
 func T11e_collateral_auth200()   { h11(1, 200, true, true) }
